@@ -26,7 +26,8 @@ PROPS["C18"] = prop(
      Unit("TestC18MySQLStall", C18MY, rapid=False, tags="mysql", shards_quick=1, shards_thorough=1, timeout_quick=120, timeout_thorough=1800),
      Unit("TestC18PostgresStall", C18PG, rapid=False, tags="postgres", shards_quick=1, shards_thorough=1, timeout_quick=120, timeout_thorough=1800),
      Unit("TestC18MySQL", C18MY, tags="mysql", quick=1500, thorough=40000, shards_quick=3, shards_thorough=8, timeout_quick=300, timeout_thorough=3600),
-     Unit("TestC18Postgres", C18PG, tags="postgres", quick=1500, thorough=40000, shards_quick=3, shards_thorough=8, timeout_quick=300, timeout_thorough=3600)],
+     Unit("TestC18Postgres", C18PG, tags="postgres", quick=1500, thorough=40000, shards_quick=3, shards_thorough=8, timeout_quick=300, timeout_thorough=3600),
+     Unit("TestC18StoreAccount", "server", quick=4000, thorough=200000, shards_quick=2, shards_thorough=8, timeout_quick=300)],
     ["a duplicate-key error on INSERT INTO subscriptions is tolerated by createSubscription (turned into an UPDATE; PostgreSQL: after ROLLBACK TO SAVEPOINT) and a "
      "duplicate-key error on INSERT INTO usertags is tolerated by UserUpdateTags without reset (addTags ignoreDups) on MySQL: committing after these is not a violation",
      "a COMMIT that fails ends the transaction at the server without making it durable (as MySQL and PostgreSQL do); ROLLBACK itself is never failed",
